@@ -12,10 +12,10 @@ def build(P):
     # type -> (declared name, a value expression of that type, a second distinct value, needs setup lines)
     TY = {
         "INTEGER": ("7", "8"), "REAL": ("2.5", "3.75"), "BOOLEAN": ("TRUE", "FALSE"), "CHAR": ("'q'", "'r'"), "STRING": ('"hey"', '"yo"'),
-        "STRING1": ('"z"', '"y"'), "DATE": ("14/3/2020", "15/3/2020"), "Col": ("Green", "Blue"), "Shape": ("Line", "Dot"),
+        "STRING1": ('"z"', '"y"'), "STRING0": ('""', '""'), "DATE": ("14/3/2020", "15/3/2020"), "Col": ("Green", "Blue"), "Shape": ("Line", "Dot"),
         "PInt": ("srcPInt", "srcPInt2"), "PStr": ("srcPStr", "srcPStr2"), "RecA": ("srcRecA", "srcRecA2"), "RecB": ("srcRecB", "srcRecB2"),
     }
-    DECL = {"STRING1": "STRING"}
+    DECL = {"STRING1": "STRING", "STRING0": "STRING"}
     SRC_SETUP = ["DECLARE tI : INTEGER", "DECLARE tI2 : INTEGER", "DECLARE tS : STRING", "DECLARE tS2 : STRING", "tI <- 1", "tI2 <- 2", "tS <- \"s1\"", "tS2 <- \"s2\"",
                  "DECLARE srcPInt : PInt", "DECLARE srcPInt2 : PInt", "srcPInt <- ^tI", "srcPInt2 <- ^tI2", "DECLARE srcPStr : PStr", "DECLARE srcPStr2 : PStr", "srcPStr <- ^tS", "srcPStr2 <- ^tS2",
                  "DECLARE srcRecA : RecA", "DECLARE srcRecA2 : RecA", "srcRecA.f <- 41", "srcRecA2.f <- 42", "DECLARE srcRecB : RecB", "DECLARE srcRecB2 : RecB", "srcRecB.g <- \"b1\"", "srcRecB2.g <- \"b2\""]
@@ -30,7 +30,7 @@ def build(P):
 
     def c05_cases(tier, seed):
         progs = []
-        targets = [t for t in TY if t != "STRING1"]
+        targets = [t for t in TY if t not in ("STRING1", "STRING0")]
         for tt in targets:
             for st in TY:
                 v1, v2 = TY[tt]
@@ -136,6 +136,13 @@ def build(P):
             "DECLARE a : ARRAY[1:3] OF INTEGER\nDECLARE a : ARRAY[1:3] OF INTEGER", "DECLARE a : ARRAY[1:3] OF DATE\nOUTPUT a[1]", "DECLARE a : ARRAY[- 1:1] OF CHAR\nOUTPUT ASC(a[0])",
             "DECLARE a : ARRAY[1:3] OF BOOLEAN\nOUTPUT a[1], a[3]", "DECLARE a : ARRAY[1:3] OF REAL\nOUTPUT a[2]", "DECLARE a : ARRAY[1:3] OF STRING\nOUTPUT \"[\", a[2], \"]\"",
             "i <- 2\nDECLARE a : ARRAY[i:i*2] OF INTEGER\na[i + 1] <- 3\nOUTPUT a[3], a[4]\nOUTPUT a[5]",
+            # dynamic indices evaluated repeatedly by the same source expression
+            "TYPE R\nDECLARE age : INTEGER\nDECLARE name : STRING\nENDTYPE\nDECLARE people : ARRAY[1:3] OF R\nFOR i <- 1 TO 3\npeople[i].age <- i * 10\npeople[i].name <- \"n\" & i\nNEXT i\nFOR i <- 1 TO 3\nOUTPUT people[i].age, \" \", people[i].name\nNEXT i",
+            "DECLARE m : ARRAY[1:3, 0:2] OF INTEGER\nFOR i <- 1 TO 3\nFOR j <- 0 TO 2\nm[i, j] <- i * 10 + j\nNEXT j\nNEXT i\nFOR j <- 2 TO 0 STEP -1\nFOR i <- 3 TO 1 STEP -1\nOUTPUT m[i, j]\nNEXT i\nNEXT j",
+            "DECLARE a : ARRAY[1:4] OF INTEGER\nPROCEDURE Inc(BYREF e : INTEGER)\ne <- e + 1\nENDPROCEDURE\nFOR k <- 1 TO 4\na[k] <- k\nCALL Inc(a[k])\nCALL Inc(a[5 - k])\nNEXT k\nOUTPUT a[1], a[2], a[3], a[4]",
+            "TYPE R\nDECLARE v : ARRAY[1:2] OF INTEGER\nENDTYPE\nDECLARE rs : ARRAY[0:2] OF R\nFOR i <- 0 TO 2\nFOR j <- 1 TO 2\nrs[i].v[j] <- i * 2 + j\nNEXT j\nNEXT i\nFOR i <- 0 TO 2\nOUTPUT rs[i].v[1], rs[i].v[2]\nNEXT i",
+            "TYPE P = ^INTEGER\nDECLARE a : ARRAY[1:3] OF INTEGER\nDECLARE p : P\nFOR i <- 1 TO 3\np <- ^a[i]\np^ <- i * 7\nNEXT i\nOUTPUT a[1], a[2], a[3]",
+            "DECLARE a : ARRAY[1:3] OF INTEGER\nFUNCTION Get(i : INTEGER) RETURNS INTEGER\nRETURN a[i]\nENDFUNCTION\nFOR i <- 1 TO 3\na[i] <- i\nNEXT i\nOUTPUT Get(1), Get(2), Get(3)\ni <- 1\nWHILE i <= 3 DO\nOUTPUT a[i] + a[4 - i]\ni <- i + 1\nENDWHILE",
         ]
         yield ("shapes", [Case(id="C06-shape-%d" % i, prog=(s + "\n").encode()) for i, s in enumerate(shapes)])
         n = sizes(tier, 500, 10000)
@@ -336,7 +343,14 @@ def build(P):
             "TYPE P = ^INTEGER\nDECLARE gp : P\nPROCEDURE Use(q : P)\nq^ <- q^ + 1\nOUTPUT q^\nENDPROCEDURE\nPROCEDURE Outer\nDECLARE loc : INTEGER\nDECLARE lp : P\nloc <- 1\nlp <- ^loc\nCALL Use(lp)\nOUTPUT loc\nENDPROCEDURE\nCALL Outer",
             "TYPE P = ^INTEGER\nDECLARE gp : P\nPROCEDURE Rec(n : INTEGER)\nDECLARE loc : INTEGER\nloc <- n\nIF n = 3 THEN\ngp <- ^loc\nENDIF\nIF n > 0 THEN\nCALL Rec(n - 1)\nENDIF\nIF n >= 3 THEN\nOUTPUT gp^\nENDIF\nENDPROCEDURE\nCALL Rec(5)\nOUTPUT gp^",
             "TYPE P = ^INTEGER\nDECLARE gp : P\nPROCEDURE A\nDECLARE loc : INTEGER\nloc <- 1\ngp <- ^loc\nENDPROCEDURE\nPROCEDURE B(d : INTEGER)\nDECLARE pad : INTEGER\npad <- 100 + d\nIF d > 0 THEN\nCALL B(d - 1)\nELSE\nOUTPUT gp^\nENDIF\nENDPROCEDURE\nCALL A\nCALL B(3)",
-            "TYPE P = ^INTEGER\nTYPE Q = ^STRING\nDECLARE p : P\nDECLARE q : Q\nx <- 1\np <- ^x\nq <- p", "TYPE P = ^INTEGER\nDECLARE p : P\nx <- 1\np <- ^x\nOUTPUT p\np",
+            "TYPE P = ^INTEGER\nTYPE Q = ^STRING\nDECLARE p : P\nDECLARE q : Q\nx <- 1\np <- ^x\nq <- p",
+            # targets inside nested records, arrays of records and array fields
+            "TYPE In\nDECLARE x : INTEGER\nENDTYPE\nTYPE Out\nDECLARE inner : In\nDECLARE y : INTEGER\nENDTYPE\nTYPE P = ^INTEGER\nDECLARE r : Out\nDECLARE q : P\nr.inner.x <- 20\nq <- ^r.inner.x\nOUTPUT q^\nq^ <- q^ + 3\nOUTPUT r.inner.x, \" \", q^",
+            "TYPE In\nDECLARE x : INTEGER\nENDTYPE\nTYPE Mid\nDECLARE inner : In\nENDTYPE\nTYPE Out\nDECLARE mid : Mid\nENDTYPE\nTYPE P = ^INTEGER\nDECLARE r : Out\nDECLARE q : P\nq <- ^r.mid.inner.x\nq^ <- 9\nOUTPUT r.mid.inner.x",
+            "TYPE R\nDECLARE f : INTEGER\nENDTYPE\nTYPE P = ^INTEGER\nDECLARE a : ARRAY[1:3] OF R\nDECLARE q : P\nFOR i <- 1 TO 3\nq <- ^a[i].f\nq^ <- i * 3\nNEXT i\nOUTPUT a[1].f, a[2].f, a[3].f",
+            "TYPE R\nDECLARE v : ARRAY[1:3] OF INTEGER\nENDTYPE\nTYPE P = ^INTEGER\nDECLARE r : R\nDECLARE q : P\nq <- ^r.v[2]\nq^ <- 8\nOUTPUT r.v[1], r.v[2], r.v[3]",
+            "TYPE In\nDECLARE x : INTEGER\nENDTYPE\nTYPE Out\nDECLARE inner : In\nENDTYPE\nTYPE P = ^INTEGER\nDECLARE gq : P\nPROCEDURE Mk\nDECLARE loc : Out\nloc.inner.x <- 4\ngq <- ^loc.inner.x\nOUTPUT gq^\nENDPROCEDURE\nCALL Mk\nOUTPUT \"after\"\nOUTPUT gq^",
+            "TYPE In\nDECLARE x : INTEGER\nENDTYPE\nTYPE Out\nDECLARE inner : In\nENDTYPE\nTYPE P = ^INTEGER\nDECLARE r, s : Out\nDECLARE q : P\nr.inner.x <- 1\ns <- r\nq <- ^s.inner.x\nq^ <- 5\nOUTPUT r.inner.x, s.inner.x\nFUNCTION Mk() RETURNS Out\nDECLARE t : Out\nt.inner.x <- 7\nRETURN t\nENDFUNCTION\ns <- Mk()\nq <- ^s.inner.x\nOUTPUT q^", "TYPE P = ^INTEGER\nDECLARE p : P\nx <- 1\np <- ^x\nOUTPUT p\np",
             "TYPE P = ^INTEGER\nDECLARE p : P\nCONSTANT K = 3\np <- ^K\nOUTPUT p^", "TYPE P = ^Nope", "TYPE P = ^INTEGER\nTYPE P = ^STRING",
         ]
         yield ("shapes", [Case(id="C09-shape-%d" % i, prog=(s + "\n").encode()) for i, s in enumerate(shapes)])
@@ -352,9 +366,11 @@ def build(P):
         """pointer-centric generator: pointers to globals / locals / parameters / elements / fields, copied through assignments, parameters, results, globals,
         dereferenced in same activation, callee, caller after return, sibling call, deeper recursion"""
         L = ["TYPE PI = ^INTEGER", "TYPE PS = ^STRING", "TYPE R", "DECLARE f : INTEGER", "DECLARE s : STRING", "ENDTYPE",
+             "TYPE Nest", "DECLARE inner : R", "DECLARE arr : ARRAY[1:2] OF INTEGER", "ENDTYPE", "DECLARE gn : Nest", "DECLARE gra : ARRAY[1:2] OF R",
+             "gn.inner.f <- 31", "gn.arr[1] <- 41", "gn.arr[2] <- 42", "gra[1].f <- 51", "gra[2].f <- 52",
              "DECLARE g1, g2 : INTEGER", "DECLARE gs : STRING", "DECLARE ga : ARRAY[1:3] OF INTEGER", "DECLARE gr : R",
              "DECLARE gp, gq : PI", "DECLARE gps : PS", "g1 <- 1", "g2 <- 2", "gs <- \"gs\"", "ga[1] <- 11", "ga[2] <- 12", "ga[3] <- 13", "gr.f <- 21", "gr.s <- \"rs\""]
-        targets_g = ["g1", "g2", "ga[1]", "ga[3]", "gr.f"]
+        targets_g = ["g1", "g2", "ga[1]", "ga[3]", "gr.f", "gn.inner.f", "gn.arr[2]", "gra[2].f", "gra[g1 MOD 2 + 1].f"]
         def use(p, tag):
             k = r.random()
             if k < 0.5: return ["OUTPUT \"%s \", %s^" % (tag, p)]
@@ -385,7 +401,7 @@ def build(P):
             elif c < 0.65: L += ["gq <- MkP(%d)" % r.randint(1, 2)]
             elif c < 0.9: L += use(r.choice(["gp", "gq"]), "main")
             else: L += ["g1 <- g1 + 100", "ga[1] <- ga[1] + 100"]
-        L += ["OUTPUT g1, \" \", g2, \" \", ga[1], \" \", ga[2], \" \", ga[3], \" \", gr.f"]
+        L += ["OUTPUT g1, \" \", g2, \" \", ga[1], \" \", ga[2], \" \", ga[3], \" \", gr.f, \" \", gn.inner.f, \" \", gn.arr[1], \" \", gn.arr[2], \" \", gra[1].f, \" \", gra[2].f"]
         return ("\n".join(L) + "\n").encode()
 
     C09 = dict(cases=c09_cases, builds=["normal", "san"], nontrivial=lambda c, r, m: True,
